@@ -542,7 +542,7 @@ theorem carried_of_slot (sdata : Nat) (pcmd : Bytes) (e : Bytes × Bytes) (h4 : 
             · simp only [Option.some.injEq] at h
               subst h
               simp only at hb
-              refine ⟨.pcm (slotAddr sdata id) hdr (readAt pcmd hdr.position hdr.size), ?_, ?_⟩
+              refine ⟨.pcm (slotAddr sdata id) hdr (readAt pcmd (hdr.position + hdr.start) hdr.size), ?_, ?_⟩
               · unfold carriedOf
                 rw [if_neg (mt tglob.mp hg'), if_pos (tpcmh.mpr hp'), hdata, hid, f0]
               · simp only [toSlot, slotAddr_small sdata id hidlt hb, ← f1, ← f2, ← f3, ← f4]
